@@ -1,5 +1,6 @@
 \* quick, liveness (EventuallyArrives, Settles under fairness + schedules that end in accept-for-ever):
-\* nsq_to_http shape (sync, 2 handler goroutines), round-robin; 1 item per destination
+\* nsq_to_http shape (sync, 2 handler goroutines), round-robin; 1 item per destination; 1 request lost with its
+\* connection; no source timeout
 SPECIFICATION Spec
 CONSTANTS
   Msgs = {1, 2}
@@ -10,7 +11,8 @@ CONSTANTS
   Items = {"A", "R", "L", "D"}
   MaxSched = 1
   MaxBad = 2
-  MaxTimeouts = 1
+  MaxTimeouts = 0
+  MaxConnLost = 1
   MaxAttempts = 0
   Filter = FALSE
 INVARIANTS TypeOK FinOnlyAfterAccept ReqOtherwise Unmodified AtLeastOnce NeverLost
